@@ -33,6 +33,11 @@ CHECKS = {
   text="validate_iff_allowed: for every dictionary satisfying the decidable schemaWF (evaluated by the compiled model on FIX44.xml and TT-FIX44.xml every run), every value verdict and every message tree at any depth, validate = ok iff Allowed (spec written independently: type known, required members incl. groups present, every tag known and allowed incl. header/trailer, plain vs group kind, valid values, per group item: members only, dictionary order, first member, required members, recursively); validate_error_kind: every rejection is FIXMessageError, no hypotheses; single-fault corollaries per mutation class at any depth; resolve_perm: component resolution gives the same result for every permutation of the declaration list (no acyclicity hypothesis). The library's XML parser is compared with an independent reference reader, also under permuted <components>.",
   ref="DESIGN.md §6 C15",
   note=DEFAULT_NOTE + " Value validity is an abstract parameter here (C19 decides it); parse-time KeyError/ValueError on malformed dictionaries and the header-before-components order are not modelled; CheckSum(10) is exempt as in the code."),
+ "C19": dict(
+  technique="Lean 4 proof over hand-written models of validate_value and CPython int()/float()/re/_strptime + exhaustive small-scope differential correspondence + independent Python lexical-space oracle",
+  text="impl_iff: for all strings (lists of code points) and every dispatch branch with a FIX datatype (int, SeqNum/NumInGroup, DayOfMonth, the six float types, String/MultipleValueString, char, Boolean, Country/Currency/Exchange, UTCDateOnly/LocalMktDate, UTCTimestamp, UTCTimeOnly, MonthYear): accepted <-> (in the FIX 4.4 lexical space AND not in the explicit too-narrow set) OR explicit deviation (six fraction digits); Boolean, codes and data exact; enum_exact: enumerated fields accept exactly their enumerators; error_kind / rejection_is_fme: only FIXMessageError escapes, no hypothesis; length_accepts_everything: LENGTH is unvalidated (pinned finding). The narrow/deviation sets are the 8 open known findings (int() 4300-digit limit, float overflow, '=' in String [pinned], year 0000, second 60, six fraction digits [pinned], LENGTH [pinned]), each refuted for the full statement by a kernel-checked witness. Model compared with the implementation on all strings of length <= 3 (quick) / <= 4 (thorough) per datatype over a 16-character alphabet, all single-edit neighbours of 43 date/time exemplars, every enumerated field of both dictionaries (1.6M / 9.5M evaluations).",
+  ref="DESIGN.md §6 C19",
+  note=DEFAULT_NOTE + " Trusted: the SPEC recognisers (choices: '.5' and '5.' are floats; codes are 1..n ASCII alphanumerics; Length positive int; year 0000 is a leap year; MultipleValueString = String), the CPython models of int()/float()/re/_strptime (compared one level down with the interpreter), generated Unicode digit/space tables checked against the interpreter on all code points each run."),
 }
 NOT_YET = "check under construction in this build round (model and theorems planned in DESIGN.md §6); not yet claimed"
 
